@@ -36,8 +36,10 @@ import (
 )
 
 func bootCore(cfg string) string {
-	dir := boot(cfg) // services + chain ids of the configuration
+	dir := boot(cfg)         // services + chain ids of the configuration
+	common.SetBlockHeight(0) // the dev genesis is built at height 0 (before the gas magnification of Proposal026)
 	env.BootCore(env.Forks{}, nil)
+	common.SetBlockHeight(10)
 	if middleware.AccountDBManagerInstance.LatestStateDB == nil {
 		panic("MACHINERY: core booted without a latest state")
 	}
@@ -46,8 +48,8 @@ func bootCore(cfg string) string {
 
 // entryHeight maps the height a case was built for to the height installed at the
 // entry point (same side of the chain-id fork; small, so that nothing else changes).
-func entryHeight(h uint64) uint64 {
-	if h >= forkB {
+func entryHeight(cfg string, h uint64) uint64 {
+	if cfg != cfgA && h >= forkB {
 		return 1500
 	}
 	return 10
@@ -59,6 +61,7 @@ type entryTx struct {
 	mut    string
 	class  string
 	honest bool
+	typ    int32 // type of the honest base this case was derived from
 }
 
 var entryTypes = []int32{0, types.TransactionTypeOperatorEvent, types.TransactionTypeContract, types.TransactionTypeETHTX}
@@ -119,6 +122,12 @@ func entryBase(r *mon.Run, cfg string, idx int, typ int32) (honest *entryTx, for
 	for _, c := range order {
 		l := byClass[c]
 		forged = append(forged, l[rng.Intn(len(l))])
+	}
+	if honest != nil {
+		honest.typ = typ
+	}
+	for _, f := range forged {
+		f.typ = typ
 	}
 	return honest, forged
 }
@@ -206,7 +215,7 @@ func (p *entryPhase) judge(e *entryTx, entry, variant string, pos int, h uint64,
 		}
 	default:
 		r.Count("entry_"+entry+"_forged_refused", 1)
-		r.Count("entry_"+entry+"_forged_refused:"+clsName(e), 1)
+		r.Count("entry_forged_refused:"+clsName(e), 1)
 	}
 }
 
@@ -251,50 +260,109 @@ func combo(i int, rngN uint64) writeCombo {
 	return c
 }
 
-// deliverWrite hands one transaction to runWrite / the bus and judges the outcome.
-func (p *entryPhase) deliverWrite(e *entryTx, entry string, c writeCombo, pos int) {
-	h := entryHeight(e.h)
+// deliverWrite hands one transaction to runWrite and judges the outcome.
+func (p *entryPhase) deliverWrite(e *entryTx, c writeCombo, pos int) {
+	const entry = "runWrite"
+	h := entryHeight(p.cfg, e.h)
 	middleware.AccountDBManagerInstance.Height = h
 	seen := clone(e.tx) // what the entry point verifies: request id and gate nonce are filled in first
-	if entry == "runWrite" {
-		seen.RequestId = c.nonce
-		seen.SubTransactions = []types.UserData{{Address: c.gateNonce}}
-	} else if len(seen.SubTransactions) == 0 {
-		seen.SubTransactions = []types.UserData{{Address: c.gateNonce}} // GameExecutor.write logs SubTransactions[0]
-	}
+	seen.RequestId = c.nonce
+	seen.SubTransactions = []types.UserData{{Address: c.gateNonce}}
 	verr := p.alone(seen, h)
 	if p.pool.IsExisted(e.tx.Hash) {
 		p.r.Count("entry_skipped_hash_already_in_pool", 1)
 		return
 	}
 	before := sourceNonce(e.tx)
-	msg := &notify.ClientTransactionMessage{Tx: *seen, UserId: c.user, Nonce: c.nonce, GateNonce: c.gateNonce}
+	msg := &notify.ClientTransactionMessage{Tx: *clone(e.tx), UserId: c.user, Nonce: c.nonce, GateNonce: c.gateNonce}
 	variant := c.String() + ",type=" + strconv.Itoa(int(e.tx.Type))
-	w := p.wit(e, entry, variant, pos, h, verr, false, false)
-	settled := true
-	if p.r.Guard("C07:entry:"+entry, w, func() {
-		if entry == "runWrite" {
-			core.VerifGameExecutorRunWrite(msg)
-		} else {
-			settled = p.publishAndSettle(msg, verr == nil)
-		}
-	}) {
+	if p.r.Guard("C07:entry:"+entry, p.wit(e, entry, variant, pos, h, verr, false, false), func() { core.VerifGameExecutorRunWrite(msg) }) {
 		return
 	}
 	p.evals++
 	present, same := p.inPoolAs(seen)
 	executed := sourceNonce(e.tx) != before
-	if !settled && !(present && same) {
-		// the asynchronous handler was never seen to finish: nothing can be concluded
-		p.r.Inconclusive("bus delivery %s idx %d mutation %q: handler goroutine not seen to finish", p.cfg, p.idx, e.mut)
-		return
-	}
-	p.r.Count("entry_"+entry+"_combo:"+c.String0(), 1)
-	p.r.Count("entry_"+entry+"_type:"+strconv.Itoa(int(e.tx.Type)), 1)
+	p.r.Count("entry_runWrite_combo:"+c.String0(), 1)
+	p.r.Count("entry_runWrite_basetype:"+strconv.Itoa(int(e.typ)), 1)
 	p.judge(e, entry, variant, pos, h, verr, present && same, executed)
 	if present && !same {
 		p.r.Violation("C07:entry:"+entry+":pool-holds-other-content", "the pool holds a transaction with the delivered hash but other authenticated content",
 			p.wit(e, entry, variant, pos, h, verr, present, executed))
+	}
+}
+
+// quiet waits until the number of goroutines has not exceeded limit (limit < 0:
+// has not changed) for a stretch of polls; returns the count, false on expiry.
+// Events decide; the clock only bounds the wait (expiry = inconclusive).
+func quiet(limit int) (int, bool) {
+	deadline := time.Now().Add(20 * time.Second)
+	last, calm := runtime.NumGoroutine(), time.Now()
+	for {
+		n := runtime.NumGoroutine()
+		if (limit < 0 && n != last) || (limit >= 0 && n > limit) {
+			last, calm = n, time.Now()
+		}
+		if time.Since(calm) > 3*time.Millisecond {
+			return n, true
+		}
+		if time.Now().After(deadline) {
+			return n, false
+		}
+		runtime.Gosched()
+		time.Sleep(50 * time.Microsecond)
+	}
+}
+
+// busRound publishes client write messages on the bus (every handler runs on its
+// own goroutine), waits until those goroutines are gone and judges each message.
+func (p *entryPhase) busRound(items []*entryTx, c writeCombo, pos0 int) {
+	const entry = "bus"
+	if len(items) == 0 {
+		return
+	}
+	h := entryHeight(p.cfg, items[0].h)
+	middleware.AccountDBManagerInstance.Height = h
+	var sent []*entryTx
+	var seenTx []*types.Transaction
+	var verr []error
+	for _, e := range items {
+		if entryHeight(p.cfg, e.h) != h {
+			continue
+		}
+		if p.pool.IsExisted(e.tx.Hash) {
+			p.r.Count("entry_skipped_hash_already_in_pool", 1)
+			continue
+		}
+		s := clone(e.tx)
+		s.SubTransactions = []types.UserData{{Address: c.gateNonce}} // GameExecutor.write logs SubTransactions[0]
+		sent, seenTx, verr = append(sent, e), append(seenTx, s), append(verr, p.alone(s, h))
+	}
+	base, ok := quiet(-1)
+	if !ok {
+		p.r.Inconclusive("bus round %s/%d: goroutine count never settled before publishing", p.cfg, p.idx)
+		return
+	}
+	variant := c.String() + fmt.Sprintf(",published-together=%d", len(sent))
+	if p.r.Guard("C07:entry:"+entry, p.wit(sent[0], entry, variant, pos0, h, verr[0], false, false), func() {
+		for i := range sent {
+			notify.BUS.Publish(notify.ClientTransactionWrite, &notify.ClientTransactionMessage{Tx: *seenTx[i], UserId: c.user, Nonce: c.nonce, GateNonce: c.gateNonce})
+		}
+	}) {
+		return
+	}
+	if _, ok := quiet(base); !ok {
+		p.r.Inconclusive("bus round %s/%d: handler goroutines not seen to finish", p.cfg, p.idx)
+		return
+	}
+	for i, e := range sent {
+		p.evals++
+		present, same := p.inPoolAs(seenTx[i])
+		if verr[i] == nil && !(present && same) {
+			quiet(base) // one more calm stretch before an accepted transaction is called refused
+			present, same = p.inPoolAs(seenTx[i])
+		}
+		p.r.Count("entry_bus_basetype:"+strconv.Itoa(int(e.typ)), 1)
+		p.judge(e, entry, variant, pos0+i, h, verr[i], present && same, false)
 	}
 }
 
@@ -307,32 +375,6 @@ func (c writeCombo) String0() string {
 		return "0"
 	}
 	return "user=" + b(c.user != "") + ",nonce=" + b(c.nonce != 0) + ",gateNonce=" + b(c.gateNonce != 0)
-}
-
-// publishAndSettle publishes a client write message on the bus (the handler runs
-// on its own goroutine) and waits until that goroutine is gone; when an admission
-// is expected it returns as soon as the transaction is in the pool. Events decide,
-// the clock only bounds the wait (expiry = inconclusive, never a verdict).
-func (p *entryPhase) publishAndSettle(msg *notify.ClientTransactionMessage, expectAdmission bool) bool {
-	base := runtime.NumGoroutine()
-	notify.BUS.Publish(notify.ClientTransactionWrite, msg)
-	deadline := time.Now().Add(20 * time.Second)
-	for i := 0; ; i++ {
-		if runtime.NumGoroutine() <= base {
-			return true
-		}
-		if expectAdmission && p.pool.IsExisted(msg.Tx.Hash) {
-			return true
-		}
-		if i < 200 {
-			runtime.Gosched()
-		} else {
-			time.Sleep(200 * time.Microsecond)
-		}
-		if time.Now().After(deadline) {
-			return false
-		}
-	}
 }
 
 var arrangements = []string{"all-honest", "all-forged", "forged-first", "honest-first", "interleaved-HF", "interleaved-FH", "duplicates"}
@@ -370,20 +412,20 @@ func pattern(arr string, n int) string {
 }
 
 // sameHashForged picks a forged transaction that carries its base's honest hash.
-func sameHashForged(honest *entryTx, forged []*entryTx, k int) *entryTx {
+func sameHashForged(cfg string, honest *entryTx, forged []*entryTx, k int) *entryTx {
 	for i := range forged {
 		f := forged[(i+k)%len(forged)]
-		if f.tx.Hash == honest.tx.Hash && entryHeight(f.h) == entryHeight(honest.h) {
+		if f.tx.Hash == honest.tx.Hash && entryHeight(cfg, f.h) == entryHeight(cfg, honest.h) {
 			return f
 		}
 	}
 	return nil
 }
 
-func otherHashForged(honest *entryTx, forged []*entryTx, k int) *entryTx {
+func otherHashForged(cfg string, honest *entryTx, forged []*entryTx, k int) *entryTx {
 	for i := range forged {
 		f := forged[(i+k)%len(forged)]
-		if f.tx.Hash != honest.tx.Hash && entryHeight(f.h) == entryHeight(honest.h) {
+		if f.tx.Hash != honest.tx.Hash && entryHeight(cfg, f.h) == entryHeight(cfg, honest.h) {
 			return f
 		}
 	}
@@ -393,11 +435,11 @@ func otherHashForged(honest *entryTx, forged []*entryTx, k int) *entryTx {
 // peerBatch delivers one TransactionGotMsg batch and judges every member.
 func (p *entryPhase) peerBatch(arr string, n int, bases []*entryTx, forged [][]*entryTx, k int) {
 	pat := pattern(arr, n)
-	h := entryHeight(bases[0].h)
+	h := entryHeight(p.cfg, bases[0].h)
 	var members []*entryTx
 	bi := 0
 	for i := 0; i < n; i++ {
-		for bi < len(bases) && entryHeight(bases[bi].h) != h {
+		for bi < len(bases) && entryHeight(p.cfg, bases[bi].h) != h {
 			bi++ // one height per batch: the entry point has one
 		}
 		if bi >= len(bases) {
@@ -411,16 +453,20 @@ func (p *entryPhase) peerBatch(arr string, n int, bases []*entryTx, forged [][]*
 		case 'F':
 			// alternate between forged transactions with the base's own hash and with a hash of their own
 			if (i+k)%2 == 0 {
-				m = sameHashForged(bases[bi], forged[bi], k+i)
+				m = sameHashForged(p.cfg, bases[bi], forged[bi], k+i)
 			}
 			if m == nil {
-				m = otherHashForged(bases[bi], forged[bi], k+i)
+				m = otherHashForged(p.cfg, bases[bi], forged[bi], k+i)
 			}
 			bi++
 		case 'R':
-			m = members[len(members)-1]
+			if len(members) > 0 {
+				m = members[len(members)-1]
+			}
 		case 'T':
-			m = sameHashForged(bases[bi-1], forged[bi-1], k+i)
+			if bi > 0 {
+				m = sameHashForged(p.cfg, bases[bi-1], forged[bi-1], k+i)
+			}
 		}
 		if m != nil {
 			members = append(members, m)
@@ -525,19 +571,19 @@ func entryGroup(r *mon.Run, cfg string, idx int) int64 {
 	typ := entryTypes[(idx/8)%len(entryTypes)]
 	if honest, forged := entryBase(r, cfg, idx*16, typ); honest != nil {
 		for i, f := range forged {
-			p.deliverWrite(f, "runWrite", c, i)
+			p.deliverWrite(f, c, i)
 		}
-		p.deliverWrite(honest, "runWrite", c, len(forged))
+		p.deliverWrite(honest, c, len(forged))
 		// the same message again: the pool's duplicate rule, no second admission
 		if p.pool.IsExisted(honest.tx.Hash) {
 			n := len(p.pool.GetReceived())
-			r.Guard("C07:entry:runWrite", p.wit(honest, "runWrite", "repeat", 0, entryHeight(honest.h), nil, true, false), func() {
+			r.Guard("C07:entry:runWrite", p.wit(honest, "runWrite", "repeat", 0, entryHeight(p.cfg, honest.h), nil, true, false), func() {
 				s := clone(honest.tx)
 				core.VerifGameExecutorRunWrite(&notify.ClientTransactionMessage{Tx: *s, UserId: c.user, Nonce: c.nonce, GateNonce: c.gateNonce})
 			})
 			if len(p.pool.GetReceived()) != n {
 				r.Violation("C07:entry:runWrite:duplicate-admitted", "delivering an admitted transaction again changed the number of pending transactions",
-					p.wit(honest, "runWrite", "repeat", 0, entryHeight(honest.h), nil, true, false))
+					p.wit(honest, "runWrite", "repeat", 0, entryHeight(p.cfg, honest.h), nil, true, false))
 			}
 			r.Count("entry_runWrite_repeats", 1)
 		}
@@ -547,10 +593,12 @@ func entryGroup(r *mon.Run, cfg string, idx int) int64 {
 	busType := entryTypes[(idx/2)%len(entryTypes)]
 	if honest, forged := entryBase(r, cfg, idx*16+1, busType); honest != nil {
 		cb := combo((idx/3)%8, rng.Uint64())
+		var some []*entryTx
 		for i := 0; i < len(forged) && i < 12; i++ {
-			p.deliverWrite(forged[(i*5+idx)%len(forged)], "bus", cb, i)
+			some = append(some, forged[(i*5+idx)%len(forged)])
 		}
-		p.deliverWrite(honest, "bus", cb, 12)
+		p.busRound(some, cb, 0)                       // forged ones together (they mostly carry the honest hash)
+		p.busRound([]*entryTx{honest}, cb, len(some)) // then the honest one
 	}
 
 	// (c) one peer batch: size 1..8, arrangement cycling
